@@ -21,7 +21,7 @@ def load_mutants(prop=None):
             ms += json.load(fh)['mutants']
     if prop:
         ms = [m for m in ms if prop in m['props']]
-    return [m for m in ms if m.get('status') != 'equivalent']
+    return [m for m in ms if m.get('status') not in ('equivalent', 'pending-rule')]
 
 
 def apply_unified_diff(tree, diff_text):
